@@ -64,6 +64,12 @@ def stepCLPool (p : Pool) (op : String) (args : List String) : Pool × String :=
   -- real ExportGenesis, CL store wiped, real InitGenesis (Model/CLPoolGenesis.lean)
   | "exportimport", [] => (exportImport p, "ok")
   | "nextid", [] => (p, s!"ok {p.nextId}")
+  -- position ids are global to the module: another pool (outside this per-pool model) created positions; the engine tells the
+  -- keeper's next position id.  Only forwards (ids are never re-used).
+  | "setnextid", [n] =>
+    match n.toNat? with
+    | some n => if p.nextId ≤ n then ({ p with nextId := n }, "ok") else (p, "err")
+    | none => (p, "bad-op")
   | "dump", [] => (p, dumpPool p)
   | _, _ => (p, "bad-op")
 
